@@ -191,6 +191,9 @@ type ViolationRec struct {
 	// for violations of a cross-execution relation: the earlier execution it conflicts with
 	Scenario2 string `json:"scenario2,omitempty"`
 	Choices2  []int  `json:"choices2,omitempty"`
+	// further executions with the same signature (a few), tried when the representative does not
+	// reproduce in a fresh process (race verdicts can depend on what the process did before)
+	Alts [][]int `json:"alts,omitempty"`
 }
 
 type Sample struct {
@@ -253,11 +256,16 @@ func (s *Stats) merge(o *Stats) {
 	for k, v := range o.Violations {
 		if e, ok := s.Violations[k]; ok {
 			e.Count += v.Count
+			alts := append(e.Alts, v.Alts...)
+			if len(alts) > 12 {
+				alts = alts[:12]
+			}
 			if lessChoices(v.Choices, e.Choices) {
 				cnt := e.Count
 				*e = *v
 				e.Count = cnt
 			}
+			e.Alts = alts
 		} else {
 			s.Violations[k] = v
 		}
@@ -380,6 +388,18 @@ func (e *Explorer) runOnce(sc *Scenario, prefix []int, labels []string) *Ctx {
 	mapHookBegin(c)
 	func() {
 		defer mapHookEnd()
+		defer func() {
+			if r := recover(); r != nil {
+				if he, ok := r.(harnessError); ok {
+					panic(he)
+				}
+				// The oracle itself panicked after the code under test returned (harnesses guard the
+				// library calls). On the unchanged tree this never happens; when it does, the library
+				// returned something the oracle's own invariants exclude (e.g. it changed an object
+				// the oracle was walking), which is reported rather than swallowed.
+				c.Fail("oracle-panic:"+digitsRe.ReplaceAllString(fmt.Sprint(r), "N"), "the check's oracle panicked on what the library returned: %v\n%s", r, debug.Stack())
+			}
+		}()
 		sc.Run(c)
 	}()
 	if len(c.points) < len(prefix) {
@@ -474,6 +494,9 @@ func (e *Explorer) account(sc *Scenario, c *Ctx, devs int) {
 		ch := choicesOf(c.points)
 		if v, ok := s.Violations[key]; ok {
 			v.Count++
+			if len(v.Alts) < 8 {
+				v.Alts = append(v.Alts, ch)
+			}
 			if !lessChoices(ch, v.Choices) {
 				continue
 			}
@@ -483,9 +506,12 @@ func (e *Explorer) account(sc *Scenario, c *Ctx, devs int) {
 			in = c.describe()
 		}
 		cnt := 1
+		var alts [][]int
 		if v, ok := s.Violations[key]; ok {
 			cnt = v.Count
+			alts = v.Alts
 		}
+		defer func(key string, alts [][]int) { s.Violations[key].Alts = alts }(key, alts)
 		s.Violations[key] = &ViolationRec{Property: e.Property, Scenario: sc.Name, Tier: e.Tier, Signature: f.Signature,
 			Detail: f.Detail, Choices: ch, Labels: labelsOf(c.points), Input: in, Count: cnt}
 	}
